@@ -226,6 +226,7 @@ pub const KINDS: &[&str] = &[
     "update_set_expression",
     "update_where_text",
     "update_mixed_with_literals",
+    "update_two_where_params",
     "delete_where_pk",
     "delete_where_range",
     "delete_where_text",
@@ -365,6 +366,12 @@ fn gen_stmt(rng: &mut Rng, kind: &'static str) -> Stmt {
             parts = vec![s("UPDATE t SET a = 5, s = "), Part::P(t), s(", f = 0.5 WHERE id = "), Part::P(i)];
             verbatim.push(("t", i, Some(t), None));
         }
+        "update_two_where_params" => {
+            let t = push(&mut slots, slot_text(rng, true));
+            let lo = push(&mut slots, Slot { v: PV::Int(rng.range(0, 50)), class: "int_small".into(), benign: Some(PV::Int(15)) });
+            let hi = push(&mut slots, Slot { v: PV::Int(rng.range(30, 90)), class: "int_small".into(), benign: Some(PV::Int(65)) });
+            parts = vec![s("UPDATE t SET s = "), Part::P(t), s(" WHERE a > "), Part::P(lo), s(" AND a < "), Part::P(hi)];
+        }
         "delete_where_pk" => {
             let i = push(&mut slots, slot_id(rng.range(1, SEED_IDS + 2)));
             parts = vec![s("DELETE FROM t WHERE id = "), Part::P(i)];
@@ -486,7 +493,14 @@ fn res_of_rows(r: Result<Result<Vec<turdb::Row>, eyre::Report>, String>) -> Res 
     }
 }
 
+fn looks_like_toast_pointer(v: &OV) -> bool {
+    matches!(v, OV::Blob(b) if b.len() == 17 && b[0] == 0xFE) || matches!(v, OV::ToastPointer(_))
+}
 fn ov_bits_eq(a: &OV, b: &OV) -> bool {
+    if looks_like_toast_pointer(a) && looks_like_toast_pointer(b) {
+        // an internal pointer leaked on both twins (row ids differ between twins): judged by returned_verbatim
+        return true;
+    }
     match (a, b) {
         (OV::Float(x), OV::Float(y)) => x.to_bits() == y.to_bits() || (x.is_nan() && y.is_nan()),
         _ => a == b,
@@ -556,6 +570,11 @@ struct Twins {
     a: Db,
     b: Db,
     uses: u32,
+    /// an experiment on these twins failed: they may be damaged, the next experiment gets fresh ones
+    dirty: bool,
+    root: std::path::PathBuf,
+    generation: u32,
+    serial: u32,
 }
 
 fn sorted_table(db: &Db, table: &str) -> Result<Rows, String> {
@@ -599,12 +618,15 @@ fn file_names(db: &Db) -> BTreeSet<String> {
 }
 
 impl Twins {
-    fn create_at(dirs: &(std::path::PathBuf, std::path::PathBuf)) -> Result<Twins, String> {
+    fn create_at(root: &std::path::Path, generation: u32, serial: u32) -> Result<Twins, String> {
+        let dirs = (root.join(format!("g{}-lit{}", generation, serial)), root.join(format!("g{}-par{}", generation, serial)));
         let _ = std::fs::remove_dir_all(&dirs.0);
         let _ = std::fs::remove_dir_all(&dirs.1);
         let a = Db::create(&dirs.0)?;
         let b = Db::create(&dirs.1)?;
         for db in [&a, &b] {
+            // durability is not the subject here: no fsync per statement
+            let _ = catch(|| db.db.execute("PRAGMA synchronous = OFF"));
             for c in CREATE {
                 match catch(|| db.db.execute(c)) {
                     Ok(Ok(_)) => {}
@@ -613,10 +635,25 @@ impl Twins {
                 }
             }
         }
-        Ok(Twins { a, b, uses: 0 })
+        Ok(Twins { a, b, uses: 0, dirty: false, root: root.to_path_buf(), generation, serial })
     }
-    /// both twins back to the seed rows; false if that did not work (caller recreates the twins)
+    /// replace both databases by fresh ones
+    fn renew(&mut self) -> Result<(), String> {
+        // DROP TABLE leaves the table's TOAST companion behind (CREATE TABLE of the same name then fails), so fresh
+        // databases it is
+        let t = Twins::create_at(&self.root, self.generation, self.serial + 1)?;
+        let old = std::mem::replace(self, t);
+        let (pa, pb) = (old.a.path.clone(), old.b.path.clone());
+        drop(old);
+        let _ = std::fs::remove_dir_all(pa);
+        let _ = std::fs::remove_dir_all(pb);
+        Ok(())
+    }
+    /// both twins back to the seed rows; false if that did not work
     fn reset(&mut self) -> bool {
+        if self.dirty && self.renew().is_err() {
+            return false;
+        }
         self.uses += 1;
         for db in [&self.a, &self.b] {
             for q in seed_sql() {
@@ -654,6 +691,7 @@ fn run_experiment(tw: &mut Twins, steps: &[Stmt], style: &Style, api: Api) -> Op
         return None;
     }
     let mut fails: Vec<(usize, &'static str, String, J)> = vec![];
+    let mut cached_insert_wrote = false;
     let files_before = file_names(&tw.b);
     let (psql, _) = steps[0].param_sql(style);
     let prepared = if api != Api::ExecWithParams {
@@ -668,6 +706,7 @@ fn run_experiment(tw: &mut Twins, steps: &[Stmt], style: &Style, api: Api) -> Op
                 return Some(Outcome { fails, judged: true });
             }
             Err(p) => {
+                tw.dirty = true;
                 fails.push((0, "equal_result", format!("param_panic:{}", panic_tag(&format!("PANIC: {}", p))), json!({"param_sql": psql, "panic": p})));
                 return Some(Outcome { fails, judged: true });
             }
@@ -684,6 +723,9 @@ fn run_experiment(tw: &mut Twins, steps: &[Stmt], style: &Style, api: Api) -> Op
             (None, _) => res_of(catch(|| tw.b.db.execute_with_params(&sql, &params))),
             (Some(p), _) => exec_bound(&tw.b, p, &params, st.select && api == Api::Prepared),
         };
+        if k > 0 && st.kind.starts_with("insert") && matches!(&rb, Res::Dml(n, _) if *n > 0) {
+            cached_insert_wrote = true;
+        }
         let detail = |extra: J| json!({"literal_sql": short(&lsql, 500), "param_sql": sql, "params": params.iter().map(|p| short(&format!("{:?}", p), 160)).collect::<Vec<_>>(), "literal_result": show_res(&ra), "param_result": show_res(&rb), "step": k, "extra": extra});
         if let Some(d) = divergence(&ra, &rb) {
             fails.push((k, "equal_result", d, detail(J::Null)));
@@ -713,6 +755,18 @@ fn run_experiment(tw: &mut Twins, steps: &[Stmt], style: &Style, api: Api) -> Op
                 break;
             }
             _ => break, // the literal twin is unreadable: not a parameter matter
+        }
+        // RETURNING id, s: the returned text is the bound text
+        if st.kind == "insert_returning" {
+            if let Res::Dml(_, Some(ret)) = &rb {
+                if let Some((_, _, Some(ts), _)) = st.verbatim.first() {
+                    let want = st.slots[*ts].v.ov();
+                    let have = ret.get(0).and_then(|r| r.get(1)).cloned();
+                    if !matches!(&have, Some(h) if h == &want) {
+                        fails.push((k, "stored_verbatim", "returned_differs".to_string(), detail(json!({"bound": short(&format!("{:?}", want), 200), "returned": have.map(|h| short(&format!("{:?}", h), 200))}))));
+                    }
+                }
+            }
         }
         // stored_verbatim: the bound text/blob is in the row, byte for byte (independent of the literal twin)
         if let Res::Dml(n, _) = &rb {
@@ -762,17 +816,25 @@ fn run_experiment(tw: &mut Twins, steps: &[Stmt], style: &Style, api: Api) -> Op
             fails.push((0, "no_side_effect", "catalog_files_changed".into(), json!({"param_sql": psql, "added": added, "removed": removed})));
         }
     }
+    // what may leave structural damage behind (DELETE + re-seeding would not repair it): a row written through the
+    // cached INSERT plan (it appends to the primary-key index without regard to key order), B-tree errors, panics
+    // in the middle of a write. The next experiment then gets fresh twins.
+    const DAMAGING: &[&str] = &["pk_lookup", "param_error:separator", "param_error:key_already", "state_unreadable", "catalog_files", "param_panic:tree", "param_panic:leaf", "param_panic:interior"];
+    if cached_insert_wrote || fails.iter().any(|(_, _, l, _)| DAMAGING.iter().any(|d| l.starts_with(d))) {
+        tw.dirty = true;
+    }
     Some(Outcome { fails, judged: true })
 }
 
 fn api_name(api: Api, step: usize, select: bool) -> &'static str {
     match api {
         Api::ExecWithParams => "execute_with_params",
-        Api::Prepared | Api::PreparedExecute => {
-            if step > 0 {
+        Api::PreparedExecute => "prepared_execute",
+        Api::Prepared => {
+            if select {
+                "prepared_query"
+            } else if step > 0 {
                 "cached"
-            } else if select && api == Api::PreparedExecute {
-                "prepared_execute"
             } else {
                 "prepared"
             }
@@ -825,9 +887,7 @@ fn exec_bound(db: &Db, p: &turdb::PreparedStatement, ps: &[OV], query: bool) -> 
 
 /// runs items[start..] on its own twins; every TurDB call is preceded by a `current` event carrying the item index
 fn worker(ctx: Sink, root: std::path::PathBuf, generation: u32, items: std::sync::Arc<Vec<Item>>, start: usize, t0: std::time::Instant, budget: f64) {
-    let mut ntw = 0u32;
-    let twin_dirs = |n: u32| (root.join(format!("g{}-lit{}", generation, n)), root.join(format!("g{}-par{}", generation, n)));
-    let mut tw = match Twins::create_at(&twin_dirs(ntw)) {
+    let mut tw = match Twins::create_at(&root, generation, 0) {
         Ok(t) => t,
         Err(e) => {
             ctx.inconclusive(&format!("cannot create twin databases: {}", e));
@@ -842,22 +902,6 @@ fn worker(ctx: Sink, root: std::path::PathBuf, generation: u32, items: std::sync
         if t0.elapsed().as_secs_f64() > budget {
             ctx.count("items_skipped_on_time_budget", (items.len() - idx) as u64);
             break;
-        }
-        if tw.uses > 150 {
-            ntw += 1;
-            match Twins::create_at(&twin_dirs(ntw)) {
-                Ok(t) => {
-                    let old = std::mem::replace(&mut tw, t);
-                    let (pa, pb) = (old.a.path.clone(), old.b.path.clone());
-                    drop(old);
-                    let _ = std::fs::remove_dir_all(pa);
-                    let _ = std::fs::remove_dir_all(pb);
-                }
-                Err(e) => {
-                    ctx.inconclusive(&format!("cannot recreate twin databases: {}", e));
-                    break;
-                }
-            }
         }
         match &items[idx] {
             Item::Exp { kind, api, seed, first_round } => {
@@ -888,15 +932,8 @@ fn worker(ctx: Sink, root: std::path::PathBuf, generation: u32, items: std::sync
                 let out = match run_experiment(&mut tw, &steps, &style, api) {
                     Some(o) => o,
                     None => {
-                        ctx.count("twins_recreated_after_failed_reset", 1);
-                        ntw += 1;
-                        match Twins::create_at(&twin_dirs(ntw)) {
-                            Ok(t) => tw = t,
-                            Err(e) => {
-                                ctx.inconclusive(&format!("cannot recreate twin databases: {}", e));
-                                break;
-                            }
-                        }
+                        ctx.count("reset_of_twins_failed", 1);
+                        tw.dirty = true;
                         continue;
                     }
                 };
@@ -985,6 +1022,9 @@ fn worker(ctx: Sink, root: std::path::PathBuf, generation: u32, items: std::sync
                     };
                     ctx.nontrivial(fnv(format!("count|{}|{}|{}", apin, kind, variant).as_bytes()));
                     let detail = json!({"param_sql": sql, "params_given": ps.len(), "params_needed": params.len(), "result": show_res(&rb)});
+                    if matches!(&rb, Res::Err(e) if is_panic(e)) {
+                        tw.dirty = true;
+                    }
                     match &rb {
                         Res::Err(e) if is_panic(e) => {
                             ctx.violation("param_count_error", &format!("C13/{}/{}/{}/panic:{}", apin, kind, variant, panic_tag(e)), detail);
@@ -1020,7 +1060,7 @@ pub fn run(a: &Args) -> i32 {
         &a.tier,
         a.seed,
         "exploration",
-        "twin databases (t(id PK, a BIGINT, f DOUBLE, s TEXT, b BLOB), u(id PK, s TEXT NOT NULL, n INT DEFAULT 7), other) reset to the same seed rows before every experiment; 21 statement shapes (INSERT all columns / permuted and partial column lists / mixed with literals / multi-row / repeated parameter / RETURNING / DEFAULT and NOT NULL columns, UPDATE with SET and WHERE parameters, SET expressions, DELETE, SELECT with WHERE / LIMIT / select-list / BETWEEN / IN parameters) are rendered with literals (run through Database::execute on twin A) and with `?` or `$n` placeholders in random order (run on twin B through execute_with_params, prepare->bind->execute/query, and three executions of one prepared statement with changing parameters = cached plans); sub-assertions equal_result, equal_state, stored_verbatim (bound text/blob reads back byte-identical), no_side_effect (table `other` and the set of database files unchanged), param_count_error (missing parameters are an error, never a panic, and change nothing). Parameter classes: NULL, i64 extremes, floats whose `{}` form differs from the shortest round-trip form, text with quotes, comment markers, semicolons, backslashes, control characters, placeholders, SQL-looking strings, TOAST-sized text, blobs. A divergence is attributed to parameter classes by replacing parameters with benign values one at a time. distinct_nontrivial = distinct (statement shape, API, placeholder style, parameter classes) experiments that were executed on both twins",
+        "twin databases (t(id PK, a BIGINT, f DOUBLE, s TEXT, b BLOB), u(id PK, s TEXT NOT NULL, n INT DEFAULT 7), other) reset to the same seed rows before every experiment; 22 statement shapes (INSERT all columns / permuted and partial column lists / mixed with literals / multi-row / repeated parameter / RETURNING / DEFAULT and NOT NULL columns, UPDATE with SET and WHERE parameters, SET expressions, DELETE, SELECT with WHERE / LIMIT / select-list / BETWEEN / IN parameters) are rendered with literals (run through Database::execute on twin A) and with `?` or `$n` placeholders in random order (run on twin B through execute_with_params, prepare->bind->execute/query, and three executions of one prepared statement with changing parameters = cached plans); sub-assertions equal_result, equal_state, stored_verbatim (bound text/blob reads back byte-identical), no_side_effect (table `other` and the set of database files unchanged), param_count_error (missing parameters are an error, never a panic, and change nothing). Parameter classes: NULL, i64 extremes, floats whose `{}` form differs from the shortest round-trip form, text with quotes, comment markers, semicolons, backslashes, control characters, placeholders, SQL-looking strings, TOAST-sized text, blobs. A divergence is attributed to parameter classes by replacing parameters with benign values one at a time. distinct_nontrivial = distinct (statement shape, API, placeholder style, parameter classes) experiments that were executed on both twins",
     );
     let mut rng = Rng::derive(a.seed, 13);
     let quick = ctx.quick();
